@@ -30,6 +30,10 @@ instance : Sub Ang := ⟨fun a b => add a (neg b)⟩
 /-- n·π/4 -/
 def piQuarter (n : Int) : Ang := ⟨n, 0, 0, 0, 0, 0, 0⟩
 def pi : Ang := piQuarter 4
+/-- exact halving, when every component is even -/
+def halve? (a : Ang) : Option Ang :=
+  if a.q % 2 == 0 && a.k0 % 2 == 0 && a.k1 % 2 == 0 && a.k2 % 2 == 0 && a.k3 % 2 == 0 && a.k4 % 2 == 0 && a.k5 % 2 == 0
+  then some ⟨a.q / 2, a.k0 / 2, a.k1 / 2, a.k2 / 2, a.k3 / 2, a.k4 / 2, a.k5 / 2⟩ else none
 def ks (a : Ang) : List Int := [a.k0, a.k1, a.k2, a.k3, a.k4, a.k5]
 def ofList : List Int → Option Ang
   | [q, k0, k1, k2, k3, k4, k5] => some ⟨q, k0, k1, k2, k3, k4, k5⟩
